@@ -47,12 +47,16 @@ CONSTANTS Slots,      \* descriptor slots under test, e.g. {"d1","d2"}
           Apis,       \* "all": every API variant; "min": one per class
           Mode        \* "check" | "edges" | "hist"
 
-Valid   == {"sock", "piper", "pipew", "listener", "unconn"}
+\* "unconn": unconnected stream socket whose connect() target is listening (the pending connect gets established);
+\* "unconnr": its target address is bound but nobody listens (the pending connect is refused, asynchronously for TCP)
+\* "unconnx": a socket whose connect() has failed (POSIX: its state is unspecified, it may only be closed or have
+\* its flags changed; a further connect is not generated)
+Valid   == {"sock", "piper", "pipew", "listener", "unconn", "unconnr", "unconnx"}
 Invalid == {"closed", "never", "neg", "oor"}
 Kinds   == Valid \cup Invalid
 Readable(k) == k \in {"sock", "piper"}
 Writable(k) == k \in {"sock", "pipew"}
-IsSocket(k) == k \in {"sock", "listener", "unconn"}
+IsSocket(k) == k \in {"sock", "listener", "unconn", "unconnr", "unconnx"}
 IdMod == 2 * Cap        \* byte ids are stream positions modulo IdMod
 BIG == 99               \* symbolic: a request larger than the kernel buffer
 
@@ -244,9 +248,15 @@ Accept(d) ==
        UNCHANGED pend /\ Emit(Blocked(Call("accept", d, 0, 0, "block", {"ok:fd"}, "ok:fd", <<>>), "pconn", 0, <<>>))
 \* connect to a listener owned by the harness (which accepts at once and becomes the peer)
 Connect(d) ==
-  /\ kind[d] \in Invalid \cup {"unconn", "piper", "pipew"}
+  /\ kind[d] \in Invalid \cup {"unconn", "unconnr", "piper", "pipew"}
   /\ UNCHANGED <<blk, app, inb, nid, full, peer, rst, pend>>
   /\ IF kind[d] \in Invalid THEN UNCHANGED kind /\ Emit(Bad("connect", d, 0, 0))
+     ELSE IF kind[d] = "unconnr" THEN
+       \* abstract kernel: the pending connect resolves to "refused".  The blocking call reports that outcome
+       \* (never success); a non-blocking call may return before the outcome is known.
+       /\ kind' = [kind EXCEPT ![d] = "unconnx"]
+       /\ Emit(Call("connect", d, 0, 0, Cls(d, 0),
+                    IF blk[d] THEN {"err:ECONNREFUSED"} ELSE {"err:ECONNREFUSED", "err:EINPROGRESS"}, "err:ECONNREFUSED", <<>>))
      ELSE IF kind[d] \in {"piper", "pipew"} THEN
        UNCHANGED kind /\ Emit(Call("connect", d, 0, 0, Cls(d, 0), {"err:ENOTSOCK"}, "err:ENOTSOCK", <<>>))
      ELSE
@@ -284,7 +294,9 @@ NeverEmpty == (IsCall /\ "ok:0" \in A.allowed /\ A.op \in ReadApis \cup WriteApi
 \* data: exactly the oldest unread bytes, in order
 DataInOrder == (IsCall /\ A.op \in ReadApis /\ A.cls # "block" /\ Len(A.data) > 0) =>
                  \A i \in 1..(Len(A.data) - 1) : A.data[i + 1] = (A.data[i] + 1) % IdMod
-OracleOK == TypeOK /\ NeverEagainWhenBlocking /\ NonblockingImmediate /\ InvalidIsEBADF /\ NeverEmpty /\ DataInOrder
+\* the completion of a connect is reported faithfully: success only if the target listens
+ConnectOutcome == (IsCall /\ A.op = "connect" /\ A.dk = "unconnr") => "ok:0" \notin A.allowed
+OracleOK == TypeOK /\ ConnectOutcome /\ NeverEagainWhenBlocking /\ NonblockingImmediate /\ InvalidIsEBADF /\ NeverEmpty /\ DataInOrder
 
 EmitHook ==
   /\ (Mode = "edges" /\ n = 0) => PrintT(<<"INIT", KeyStr>>)
@@ -295,9 +307,9 @@ EmitHook ==
 IK_sock     == [s \in Slots |-> {"sock"}]
 IK_pipe     == [s \in Slots |-> {"piper", "pipew"}]
 IK_listener == [s \in Slots |-> {"listener"}]
-IK_unconn   == [s \in Slots |-> {"unconn"}]
+IK_unconn   == [s \in Slots |-> {"unconn", "unconnr"}]
 IK_invalid  == [s \in Slots |-> Invalid]
 IK_mixed    == [s \in Slots |-> IF s = "d1" THEN {"sock"} ELSE Invalid]
 IK_two      == [s \in Slots |-> IF s = "d1" THEN {"sock"} ELSE {"sock", "piper", "pipew"}]
-IK_any      == [s \in Slots |-> Kinds]
+IK_any      == [s \in Slots |-> Kinds \ {"unconnx"}]
 =============================================================================
